@@ -219,6 +219,9 @@ func (d *DeviceRemote) AddEntityAndFeatures(initialData bool, data *model.NodeMa
 
 		entity := d.Entity(entityAddress)
 		if entity == nil {
+			if ei.Description.EntityType == nil {
+				return nil, errors.New("nodemanagement.replyDetailedDiscoveryData: invalid EntityInformation.Description.EntityType")
+			}
 			entity = d.addNewEntity(*ei.Description.EntityType, entityAddress)
 			rEntites = append(rEntites, entity)
 		}
@@ -237,6 +240,9 @@ func (d *DeviceRemote) AddEntityAndFeatures(initialData bool, data *model.NodeMa
 		entity.RemoveAllFeatures()
 
 		for _, fi := range data.FeatureInformation {
+			if fi.Description == nil || fi.Description.FeatureAddress == nil {
+				continue
+			}
 			if reflect.DeepEqual(fi.Description.FeatureAddress.Entity, entityAddress) {
 				if f, ok := unmarshalFeature(entity, fi); ok {
 					entity.AddFeature(f)
@@ -260,7 +266,7 @@ func (d *DeviceRemote) CheckEntityInformation(initialData bool, entity model.Nod
 		return errors.New("nodemanagement.replyDetailedDiscoveryData: invalid EntityInformation.Description.EntityAddress")
 	}
 
-	if description.EntityAddress.Entity == nil {
+	if len(description.EntityAddress.Entity) == 0 {
 		return errors.New("nodemanagement.replyDetailedDiscoveryData: invalid EntityInformation.Description.EntityAddress.Entity")
 	}
 
